@@ -575,3 +575,33 @@ def entry_match(n):
     am = {"k": "mcall", "ty": e.get("ty"), "sp": sp, "name": "and_modify", "callee": ent + "::and_modify", "recv": e, "args": [clo]}
     return {"k": "mcall", "ty": vc.get("ty"), "sp": sp, "name": "or_insert", "callee": ent + "::or_insert", "recv": am,
             "args": vc["args"], "from_entry_match": True}
+
+
+
+# ------------------------------------------------------------------ let f = |..| body;  f(..)   (called once)
+
+def beta_local_closures(blk):
+    """A closure bound to an immutable local and called exactly once is its body at the call (`let next = || reader
+    .lock().unwrap().next(); while let Some(r) = next() { .. }`): nothing else can observe the closure value."""
+    from .inline import _beta
+    stmts = blk.get("stmts", [])
+    i = 0
+    changed = False
+    while i < len(stmts):
+        st = stmts[i]
+        init = _unblock(st.get("init")) if st.get("k") == "let" else None
+        if st.get("k") == "let" and st.get("pat", {}).get("k") == "pbind" and st.get("els") is None \
+                and isinstance(init, dict) and init.get("k") == "closure":
+            lid = st["pat"]["id"]
+            rest = {"stmts": stmts[i + 1:], "expr": blk.get("expr")}
+            uses = _uses_of(rest, lid)
+            if len(uses) == 1:
+                new = _beta(rest, lid, init)
+                if new is not None:
+                    stmts = stmts[:i] + new["stmts"]
+                    blk["expr"] = new["expr"]
+                    changed = True
+                    continue
+        i += 1
+    blk["stmts"] = stmts
+    return changed
